@@ -1,15 +1,28 @@
 /-
 C06 — keep-balance acts only on a complete view of collections and block indexes.
-Property theorems (see notes/C06.md for the reading of each).
+
+(a) `EachCollection` paging (Model/C06.lean): C06_paging_complete, C06_paging_complete_any_server,
+    C06_paging_progress, C06_paging_error_propagates, C06_paging_error_immediate.
+(b) index readers and producer (Model/C06_Index.lean): C06_index_truncation, C06_index_producer.
+(c) sweep abort (Model/C06_Run.lean): C06_no_commit_after_error, C06_run_guard_list,
+    C06_getCurrentState_error, C06_sanity_late_refuses_empty_scan.
+Each theorem is followed by `example`s showing that its hypotheses are satisfiable by a non-trivial
+instance (and, where the conclusion is conditional, that the condition occurs).
 -/
 import ArvVerif.Proofs.C06_Scan
+import ArvVerif.Proofs.C06_Progress
+import ArvVerif.Proofs.C06_Index
+import ArvVerif.Proofs.C06_Run
 namespace ArvVerif.C06
 
-/-- (a) For every collection table (any size, timestamp ties of any multiplicity), every effective
-page length ≥ 1, every environment `env` (the table seen by request k, arbitrary in k) in which the
-collections `P` stay present with non-decreasing modified_at and uuids are unique, every
-request/callback failure script and every fuel: if `EachCollection` returns nil, every collection
-of `P` was passed to the callback. -/
+/-! ## (a) paging -/
+
+/-- For every collection table (any size, timestamp ties of any multiplicity — also more ties than
+the page length), every effective page length ≥ 1, every environment `env` (`env k` = the table
+seen by request `k`, an arbitrary function of `k`: any schedule of modifications, additions and
+deletions) in which uuids are unique and the collections `P` stay present with non-decreasing
+modified_at, every request/callback failure script and every fuel: if `EachCollection` returns nil,
+every collection of `P` was passed to the callback at least once. -/
 theorem C06_paging_complete (P : List Nat) (limit : Nat) (env : Nat → List Coll) (fail : Nat → Bool)
     (cbFail : Option Nat) (fuel : Nat) (hl : 1 ≤ limit)
     (hnd : ∀ k, ((env k).map Coll.uuid).Nodup)
@@ -18,5 +31,243 @@ theorem C06_paging_complete (P : List Nat) (limit : Nat) (env : Nat → List Col
     (hok : (scan limit env fail cbFail fuel).out = .ok) :
     ∀ u ∈ P, u ∈ (scan limit env fail cbFail fuel).st.seen :=
   scan_complete fail cbFail fuel hl hnd hstart henv hok
+
+section examples_a
+/-- five collections sharing one timestamp (more ties than the page length 2) and a later one -/
+def exDb : List Coll := [⟨1, 5⟩, ⟨2, 5⟩, ⟨3, 5⟩, ⟨4, 5⟩, ⟨5, 5⟩, ⟨6, 7⟩]
+/-- while the scan runs, collection 1 is modified (fresh timestamp 9), 9 is added and 2 is deleted -/
+def exDb' : List Coll := [⟨1, 9⟩, ⟨3, 5⟩, ⟨4, 5⟩, ⟨5, 5⟩, ⟨6, 7⟩, ⟨9, 9⟩]
+def exEnv (k : Nat) : List Coll := if k < 3 then exDb else exDb'
+def exP : List Nat := [1, 3, 4, 5, 6]
+
+theorem exEnv_nodup : ∀ k, ((exEnv k).map Coll.uuid).Nodup := by
+  intro k; unfold exEnv; split <;> decide
+
+theorem exEnv_env : ∀ k, Env exP (exEnv k) (exEnv (k + 1)) := by
+  intro k
+  unfold exEnv
+  by_cases h1 : k < 3
+  · by_cases h2 : k + 1 < 3
+    · simp only [h1, h2, if_true]; exact ⟨by decide, by decide⟩
+    · simp only [h1, h2, if_true, if_false]; exact ⟨by decide, by decide⟩
+  · have h2 : ¬ k + 1 < 3 := by omega
+    simp only [h1, h2, if_false]; exact ⟨by decide, by decide⟩
+
+/-- the hypotheses hold for a history with ties, a modification, an addition and a deletion, the
+scan returns nil, so the conclusion applies: all of 1,3,4,5,6 were passed to the callback -/
+example : (scan 2 exEnv (fun _ => false) none 40).out = .ok := by decide +kernel
+example : ∀ u ∈ exP, u ∈ (scan 2 exEnv (fun _ => false) none 40).st.seen :=
+  C06_paging_complete exP 2 exEnv _ none 40 (by decide) exEnv_nodup (by decide) exEnv_env (by decide +kernel)
+/-- the modified collection is passed twice; the deleted one (not in `exP`) once, before its deletion -/
+example : (scan 2 exEnv (fun _ => false) none 40).st.seen.reverse = [1, 2, 3, 4, 5, 6, 1, 9] := by
+  decide +kernel
+end examples_a
+
+/-- The same for any server: whatever pages are returned, as long as each is a sorted prefix of the
+filtered table (`PageOf`; the page length may differ from request to request), and with arbitrary
+environment steps between requests. -/
+theorem C06_paging_complete_any_server {P : List Nat} {db : List Coll} {s s' : St} {limit : Nat}
+    {pg : List Coll} {cbFail : Option Nat} (r : Reach P db s) (hp : PageOf db s.filt limit pg)
+    (hn : next cbFail s pg = .done s') : ∀ u ∈ P, u ∈ s'.seen :=
+  paging_complete r hp hn
+
+example : Reach exP exDb init := .start _ (by decide)
+example : PageOf exDb Filt.all 2 (serve exDb .all 2) := serve_pageOf _ _ _ (by decide) (by decide)
+
+/-- Termination: if the table is constant from request `K` on (after finitely many concurrent
+changes; `K = 0`: no concurrent change at all), the scan ends — normally or with an error — within
+`K + 3·|db| + 3` page requests, whatever fails. -/
+theorem C06_paging_progress (limit : Nat) (env : Nat → List Coll) (fail : Nat → Bool)
+    (cbFail : Option Nat) (db : List Coll) (K fuel : Nat) (hl : 1 ≤ limit)
+    (hnd : ∀ k, ((env k).map Coll.uuid).Nodup) (hconst : ∀ j, K ≤ j → env j = db)
+    (hfuel : K + fuelBound db ≤ fuel) :
+    (scan limit env fail cbFail fuel).out ≠ .outOfFuel :=
+  scan_terminates hl hnd hconst hfuel
+
+example : ∀ j, 3 ≤ j → exEnv j = exDb' := by
+  intro j hj; unfold exEnv; simp; omega
+example : (scan 2 exEnv (fun _ => false) none (3 + fuelBound exDb')).out ≠ .outOfFuel :=
+  C06_paging_progress 2 exEnv _ none exDb' 3 _ (by decide) exEnv_nodup
+    (by intro j hj; unfold exEnv; simp; omega) (Nat.le_refl _)
+/-- the bound is not vacuous: with too little fuel the model does report `outOfFuel` -/
+example : (scan 2 exEnv (fun _ => false) none 3).out = .outOfFuel := by decide +kernel
+
+/-- Error propagation: a scan that returns nil made only requests that were answered without error
+(all `nreq` of them) and never invoked the callback invocation that fails. Contrapositive: a failed
+page/count request or a callback error ends the scan with an error. -/
+theorem C06_paging_error_propagates (limit : Nat) (env : Nat → List Coll) (fail : Nat → Bool)
+    (cbFail : Option Nat) (fuel : Nat) (hok : (scan limit env fail cbFail fuel).out = .ok) :
+    (∀ j, j < (scan limit env fail cbFail fuel).nreq → fail j = false) ∧
+    (∀ n, cbFail = some n → (scan limit env fail cbFail fuel).st.seen.length ≤ n) :=
+  scan_ok hok
+
+/-- … and the error is immediate: the loop returns at the failing request / callback without
+issuing another request. -/
+theorem C06_paging_error_immediate (limit : Nat) (env : Nat → List Coll) (fail : Nat → Bool)
+    (cbFail : Option Nat) (fuel k : Nat) (s : St) :
+    (fail k = true →
+      (pageLoop limit env fail cbFail (fuel + 1) k s).out = .errRequest ∧
+      (pageLoop limit env fail cbFail (fuel + 1) k s).nreq = k + 1) ∧
+    (fail k = true → (finalCheck env fail k s).out = .errRequest) ∧
+    (fail 0 = true → (scan limit env fail cbFail fuel).out = .errRequest ∧
+      (scan limit env fail cbFail fuel).nreq = 1) ∧
+    (fail k = false → ∀ s', next cbFail (pushLog s (.reqPage s.filt))
+        (serve (env k) (pushLog s (.reqPage s.filt)).filt limit) = .cbErr s' →
+      (pageLoop limit env fail cbFail (fuel + 1) k s).out = .errCallback ∧
+      (pageLoop limit env fail cbFail (fuel + 1) k s).nreq = k + 1) := by
+  refine ⟨?_, ?_, ?_, ?_⟩
+  · intro h; unfold pageLoop; simp [h]
+  · intro h; unfold finalCheck; simp [h]
+  · intro h; unfold scan; simp [h]
+  · intro h s' hn; unfold pageLoop; simp [h, hn]
+
+example : (scan 2 exEnv (fun k => k == 2) none 40).out = .errRequest := by decide +kernel
+example : (scan 2 exEnv (fun _ => false) (some 3) 40).out = .errCallback ∧
+    (scan 2 exEnv (fun _ => false) (some 3) 40).st.seen.length = 4 := by decide +kernel
+/-- null modified_at: the loop gives up with its BUG error instead of looping -/
+example : (scan 3 (fun _ => [⟨1, 0⟩, ⟨2, 0⟩, ⟨3, 0⟩, ⟨4, 4⟩]) (fun _ => false) none 40).out = .errBug := by
+  decide +kernel
+/-- a row with an old timestamp that appears behind the cursor is caught by the final count -/
+example : (scan 2 (fun k => if k < 3 then [⟨1, 5⟩, ⟨2, 6⟩, ⟨3, 7⟩] else [⟨1, 5⟩, ⟨2, 6⟩, ⟨3, 7⟩, ⟨8, 5⟩])
+    (fun _ => false) none 40).out = .errCount := by decide +kernel
+
+/-! ## (b) index readers and producer -/
+
+/-- For every well-formed index response `W = l₁\n … lₙ\n \n` (n ≥ 0; lines non-empty, without LF,
+not starting with CR) and every proper prefix `P` of `W` — every truncation point — both readers
+report an error; and both accept `W` itself: `GetIndex` returns exactly the n lines, and
+`KeepService.index` exactly the n entries when each line parses (`GoodLine`). -/
+theorem C06_index_truncation (ls : List Line) (hok : ∀ l ∈ ls, LineOK l) :
+    (∀ P, P <+: render ls → P ≠ render ls →
+      (∃ e, ksIndex P = .error e) ∧ getIndex P = .error .incomplete) ∧
+    getIndex (render ls) = .ok (ls.flatMap (fun l => l ++ [10])) ∧
+    (∀ es, AllGood ls es → ksIndex (render ls) = .ok es) :=
+  ⟨fun P hp hne => ⟨ksIndex_rejects_prefix ls hok P hp hne, getIndex_rejects_prefix ls hok P hp hne⟩,
+   getIndex_accepts ls, fun es h => ksIndex_accepts ls es h⟩
+
+section examples_b
+/-- `ab+3 12345678` and `c+0 1600000000000000000` -/
+def exL1 : Line := [97, 98, 43, 51, 32, 49, 50, 51, 52, 53, 54, 55, 56]
+def exL2 : Line := [99, 43, 48, 32, 49, 54, 48, 48, 48, 48, 48, 48, 48, 48, 48, 48, 48, 48, 48, 48, 48, 48, 48]
+def exE1 : Entry := ⟨[97, 98, 43, 51], 12345678000000000⟩
+def exE2 : Entry := ⟨[99, 43, 48], 1600000000000000000⟩
+
+theorem exL1_good : GoodLine exL1 exE1 :=
+  ⟨⟨by decide, by decide, by decide⟩, by decide, by decide, by decide⟩
+theorem exL2_good : GoodLine exL2 exE2 :=
+  ⟨⟨by decide, by decide, by decide⟩, by decide, by decide, by decide⟩
+
+example : ∀ l ∈ [exL1, exL2], LineOK l := by
+  intro l hl; simp at hl; rcases hl with rfl | rfl
+  · exact exL1_good.ok
+  · exact exL2_good.ok
+example : AllGood [exL1, exL2] [exE1, exE2] := .cons exL1_good (.cons exL2_good .nil)
+example : ksIndex (render [exL1, exL2]) = .ok [exE1, exE2] := by decide +kernel
+/-- a cut inside a line that leaves a syntactically valid line, and the cut just before the final
+LF, are both rejected -/
+example : ksIndex ((render [exL1, exL2]).take 34) = .error .noEOF := by decide +kernel
+example : ksIndex (render [exL1, exL2]).dropLast = .error .noEOF := by decide +kernel
+example : getIndex (render [exL1, exL2]).dropLast = .error .incomplete := by decide +kernel
+/-- the empty index is the single byte LF; its only proper prefix, the empty body, is rejected -/
+example : render [] = [10] ∧ ksIndex [] = .error .noEOF ∧ getIndex [] = .error .incomplete := by
+  decide +kernel
+/-- the hypothesis "does not start with CR" is needed: ScanLines turns a final lone CR into an empty
+token, so this truncation of `a 1\n`, `\rb 2\n`, `\n` would be accepted -/
+example : ksIndex [97, 32, 49, 10, 13] = .ok [⟨[97], 1000000000⟩] := by decide +kernel
+end examples_b
+
+/-- Producer: with volumes that honour `IndexTo`'s contract (`VolWF`), `handleIndex` emits the
+complete well-formed response exactly when every volume succeeded; if any volume fails the response
+is a truncated one, which both readers reject. -/
+theorem C06_index_producer (vs : List VolRun) (hwf : ∀ v ∈ vs, VolWF v) :
+    ((∀ v ∈ vs, v.ok = true) →
+      handleIndex (vs.map VolRun.out) = render (vs.flatMap (·.lines))) ∧
+    ((∃ v ∈ vs, v.ok = false) →
+      (∃ e, ksIndex (handleIndex (vs.map VolRun.out)) = .error e) ∧
+      getIndex (handleIndex (vs.map VolRun.out)) = .error .incomplete) := by
+  refine ⟨handleIndex_complete vs hwf, ?_⟩
+  intro hf
+  obtain ⟨ls, hls, hpre, hne⟩ := handleIndex_truncated vs hwf hf
+  exact ⟨ksIndex_rejects_prefix ls hls _ hpre hne, getIndex_rejects_prefix ls hls _ hpre hne⟩
+
+/-- a volume that succeeds, then one that fails after a complete line and half of another -/
+example : VolWF ⟨[exL1], [], true⟩ :=
+  ⟨by intro l hl; simp at hl; rw [hl]; exact exL1_good.ok, fun _ => rfl, ⟨exL1, exL1_good.ok, by decide⟩⟩
+example : VolWF ⟨[exL2], exL1.take 5, false⟩ :=
+  ⟨by intro l hl; simp at hl; rw [hl]; exact exL2_good.ok, (by intro h; cases h),
+   ⟨exL1, exL1_good.ok, List.take_prefix _ _⟩⟩
+example : handleIndex ([⟨[exL1], [], true⟩, ⟨[exL2], exL1.take 5, false⟩, ⟨[exL1], [], true⟩].map VolRun.out)
+    = exL1 ++ [10] ++ exL2 ++ [10] ++ exL1.take 5 := by decide +kernel
+
+/-! ## (c) sweep abort -/
+
+/-- `Balancer.Run` (its guard list `runSteps`, tied to the source by Tie.C06.tie_run_steps): under
+every choice of which conditional steps are reached (`runs`) and which calls fail (`fails`), after
+a call that failed no `CommitPulls`/`CommitTrash` call is made, and `Run` returns an error. In
+particular a failure of `GetCurrentState` (any index fetch, any collection page) or of
+`CheckSanityLate` yields no commit, and a `CommitPulls` failure yields no `CommitTrash`. -/
+theorem C06_no_commit_after_error (runs fails : Nat → Bool) (pre : List (Str × Bool)) (n : Str)
+    (post : List (Str × Bool))
+    (h : (exec runs fails runSteps 0 false).calls = pre ++ (n, true) :: post) :
+    (∀ c ∈ post, isCommit c.1 = false) ∧ (exec runs fails runSteps 0 false).err = true :=
+  ⟨no_commit_after_failure runs fails runSteps (by decide +kernel) 0 false pre n post h,
+   error_returned runs fails runSteps (by decide +kernel) 0 false n (by rw [h]; simp)⟩
+
+/-- The same for any guard list that passes the decidable check `wellGuarded` (the lifting lemma). -/
+theorem C06_no_commit_after_error_any (steps : List Step) (hw : wellGuarded steps = true)
+    (runs fails : Nat → Bool) (i : Nat) (err : Bool) (pre : List (Str × Bool)) (n : Str)
+    (post : List (Str × Bool)) (h : (exec runs fails steps i err).calls = pre ++ (n, true) :: post) :
+    (∀ c ∈ post, isCommit c.1 = false) ∧ (exec runs fails steps i err).err = true :=
+  ⟨no_commit_after_failure runs fails steps hw i err pre n post h,
+   error_returned runs fails steps hw i err n (by rw [h]; simp)⟩
+
+/-- The guard list is what the skeleton of `Run` yields, and it passes the check; a list in which
+`GetCurrentState`'s guard is missing does not. -/
+theorem C06_run_guard_list : stepsOf runSkeleton = runSteps ∧ wellGuarded runSteps = true := by
+  decide +kernel
+
+section examples_c
+/-- all conditional steps reached; the call number 14 (`bal.GetCurrentState`) fails -/
+example : (exec (fun _ => true) (fun i => i == 14) runSteps 0 false).calls.getLast? =
+    some ("bal.GetCurrentState".toList, true) := by decide +kernel
+example : (exec (fun _ => true) (fun i => i == 14) runSteps 0 false).err = true := by decide +kernel
+/-- without a failure both commit calls are made, so "no commit" above is not vacuous -/
+example : ((exec (fun _ => true) (fun _ => false) runSteps 0 false).calls.filter (fun c => isCommit c.1)).length = 2 ∧
+    (exec (fun _ => true) (fun _ => false) runSteps 0 false).err = false := by decide +kernel
+/-- a `CommitPulls` failure: no `CommitTrash` -/
+example : ((exec (fun _ => true) (fun i => i == 20) runSteps 0 false).calls.map (·.1)).getLast? =
+    some "bal.CommitPulls".toList := by decide +kernel
+/-- dropping the guard after `GetCurrentState` is detected by the check -/
+example : wellGuarded (runSteps.map (fun st =>
+    if st.name = "bal.GetCurrentState".toList then { st with guarded := false } else st)) = false := by
+  decide +kernel
+end examples_c
+
+/-- `GetCurrentState` fails as soon as the discovery document, any index fetch, the collection scan
+or the collection processor fails (model of the `errs` channel protocol; see Tie.C06
+tie_getCurrentState_skeleton and the fault-injection runs). -/
+theorem C06_getCurrentState_error (dd : Bool) (idx : List Bool) (scanF procF : Bool) :
+    (dd = true ∨ (∃ b ∈ idx, b = true) ∨ scanF = true ∨ procF = true) ↔
+      getCurrentStateFails dd idx scanF procF = true := by
+  unfold getCurrentStateFails
+  simp only [Bool.or_eq_true, List.any_eq_true, id]
+  constructor
+  · rintro (h | ⟨b, hb, hbt⟩ | h | h)
+    · exact Or.inl (Or.inl (Or.inl h))
+    · exact Or.inl (Or.inl (Or.inr ⟨b, hb, hbt⟩))
+    · exact Or.inl (Or.inr h)
+    · exact Or.inr h
+  · rintro (((h | ⟨b, hb, hbt⟩) | h) | h)
+    · exact Or.inl h
+    · exact Or.inr (Or.inl ⟨b, hb, hbt⟩)
+    · exact Or.inr (Or.inr (Or.inl h))
+    · exact Or.inr (Or.inr (Or.inr h))
+
+/-- `CheckSanityLate` refuses a sweep whose collection scan delivered nothing. -/
+theorem C06_sanity_late_refuses_empty_scan (deferred anyDesired : Bool) (repl : Int) :
+    checkSanityLateFails deferred 0 anyDesired repl = true := by
+  unfold checkSanityLateFails; simp
+
+example : checkSanityLateFails false 3 true 2 = false := by decide
 
 end ArvVerif.C06
